@@ -33,7 +33,7 @@ func init() {
 		Mutant{"C36", "value-in-hex", "internal/metrics/metrics.go",
 			"strconv.FormatInt(value, 10)", "strconv.FormatInt(value, 16)", "C36.metric.shape"},
 		Mutant{"C36", "label-closing-quote-dropped", "internal/metrics/metrics.go",
-			"		b.WriteString(m[k])\n		b.WriteByte('\"')\n", "		b.WriteString(m[k])\n", "C36.tags.shape"},
+			"		b.WriteString(labelValueEscaper.Replace(m[k]))\n		b.WriteByte('\"')\n", "		b.WriteString(labelValueEscaper.Replace(m[k]))\n", "C36.tags.shape"},
 		Mutant{"C36", "invalid-label-key", "internal/metrics/metrics.go",
 			`"protocol": string(i.item.Protocol),`, `"proto-col": string(i.item.Protocol),`, "C36.label_key"},
 		Mutant{"C36", "entity-string-in-metric-name", "internal/metrics/metrics.go",
